@@ -588,6 +588,54 @@ def detect_cfg():
     return _CFG
 
 
+def view_obs(t):
+    """Phase 5: what a table / view shows besides list(table): len, to_dicts, and per column the object t[c] (class, len, list, [0], [-1])"""
+    def ex(f, conv):
+        try:
+            return {"ok": conv(f())}
+        except Exception as e:  # noqa
+            return {"err": errname(e)}
+    out = {"len": ex(lambda: len(t), int),
+           "dicts": ex(lambda: list(t.to_dicts()), lambda ds: [[[cid(k), from_py(v)] for k, v in d.items()] for d in ds]), "cols": []}
+    for c in list(t.columns):
+        def one(c=c):
+            s = t[c]
+            kind = 0 if isinstance(s, list) else {"SliceView": 1, "ListView": 2}.get(type(s).__name__, 9)
+            return {"kind": kind, "len": len(s), "items": ex(lambda: list(s), lambda xs: [from_py(x) for x in xs]),
+                    "first": ex(lambda: s[0], from_py), "last": ex(lambda: s[-1], from_py)}
+        out["cols"].append([cid(c), ex(one, lambda x: x)])
+    return out
+
+
+def view_monitor(j, t, v):
+    """(B): the other observables of one and the same object must tell what list(table) tells"""
+    fails = []
+    try:
+        cols, rows = list(t.columns), [tuple(r) for r in t]
+    except Exception:  # noqa
+        return fails
+    same = lambda a, b: type(a) is type(b) and (a is b or a == b)
+    if cols and "ok" in v["len"] and v["len"]["ok"] != len(rows):
+        fails.append(F("B", "table %d: len(table) = %d but list(table) has %d rows" % (j, v["len"]["ok"], len(rows)), "view:len-differs-from-rows"))
+    try:
+        ds = list(t.to_dicts())
+        if len(set(cols)) == len(cols) and (len(ds) != len(rows) or any(list(d.keys()) != cols or not all(same(d[c], r[k]) for k, c in enumerate(cols)) for d, r in zip(ds, rows))):
+            fails.append(F("B", "table %d: to_dicts() gives %r but list(table) gives %r (columns %r)" % (j, ds[:6], rows[:6], cols), "view:to_dicts-differs-from-rows"))
+    except Exception as e:  # noqa
+        fails.append(F("B", "table %d: to_dicts() raises %r; list(table) gives %d rows" % (j, e, len(rows)), "view:to_dicts-raised:" + errname(e)))
+    for k, c in enumerate(cols):
+        try:
+            s = t[c]
+            items = list(s)
+            if len(s) != len(rows) or len(items) != len(rows) or not all(same(a, r[k]) for a, r in zip(items, rows)) or (rows and not same(s[0], rows[0][k])) or (rows and not same(s[len(rows) - 1], rows[-1][k])):
+                fails.append(F("B", "table %d: column access table[%r] shows %r (len %d) but list(table) has %r in that column" % (j, c, items[:8], len(s), [r[k] for r in rows][:8]), "view:column-differs-from-rows"))
+                break
+        except Exception as e:  # noqa
+            fails.append(F("B", "table %d: column access table[%r] raises %r; list(table) gives %d rows" % (j, c, e, len(rows)), "view:column-raised:" + errname(e)))
+            break
+    return fails
+
+
 class Runner:
     """runs the case on the real Table, observing after every operation and checking (B) against the
     contents just before the operation"""
@@ -608,6 +656,8 @@ class Runner:
         self.last_sig = None
         self.live = {}       # (table id, column) -> the column object handed to the current where as a probe collection
         self.poisoned = set()  # stale mode: objects left alone after a mutation through another object raised
+        self.tainted = set()   # objects another object has mutated under (not looked at by the Phase 5 view observation)
+        self.views = {}        # table id -> view_obs of the live, untainted objects at the end of the run
 
     def resolve(self, op, tables):
         """a probe collection given as {"col": [table id, column]} is the live column `tables[id][column]` (a list of a table
@@ -702,6 +752,8 @@ class Runner:
                         pass
             nfails = len(self.fails)
             getattr(self, "do_" + k)(n, op, t, tables, cols, rows, idx)
+            if k in ("insert", "index"):
+                self.tainted |= set(range(len(tables))) - {op["t"]}
             if case.get("stale") and k in ("insert", "index") and tables[op["t"]] is None:
                 # a mutation that raised may have permuted some of the shared lists before it did (index: column by column): what the
                 # other objects show then is not modelled - they are left alone from here on
@@ -749,6 +801,15 @@ class Runner:
                     self.suspect[ntab] = self.last_sig[len("downstream:"):] if self.last_sig.startswith("downstream:") else self.last_sig
         if not self.lin_stop:
             self.lin_obs = observe(tables[self.lin_cur]) if tables[self.lin_cur] is not None else None
+        if not case.get("stale"):
+            for j, t in enumerate(tables):
+                if t is None or j in self.tainted or j in self.suspect:
+                    continue
+                v = self.views[j] = view_obs(t)
+                kinds = sorted(set(c[1]["ok"]["kind"] for c in v["cols"] if "ok" in c[1]))
+                self.tags.append("view:%s:%s" % ("+".join({0: "list", 1: "SliceView", 2: "ListView"}.get(x, "other") for x in kinds) or "no-columns",
+                                                 "empty" if v["len"].get("ok") == 0 else "rows"))
+                self.fails.extend(view_monitor(j, t, v))
         return self
 
     # ---- conversions for the model
@@ -2007,6 +2068,274 @@ def vt_corpus():
         cs.append({"vt": {"type": "sparse", "build": "dict", "cells": sparse_cells, "probes": pr[:1], "container": "list", "op": "=", "indexed": False}})
     return cs
 
+
+# ---------------------------------------------------------------- Phase 5: `sorted()` as a comparison sort (pySortedE = pySorted)
+# case = {"sort": {"cells": [cell, ...]}}: the cells are sorted three ways by the REAL code - `sorted(cells)`,
+# `sorted(range(n), key=cells.__getitem__)` (what Table.index / _in_index_order call) and `Table.index` on a one-column-plus-row-id
+# table - and by the Lean driver twice: the insertion sort with the raising `<` (`pySortedE` / `pySortedByE`) and the specification-level
+# `pySorted` / `pySortedBy` (theorems sorted_comparison_sort_eq, sortedBy_comparison_sort_eq, sorted_raises_iff).
+SORT_ALPHABET = [["i", 1], ["f", 1, 1], ["i", 2], ["s", "a"], ["s", "b"], ["n"], ["m"]]
+
+
+def sort_exact(v):
+    return from_py(v)
+
+
+def sort_eval(case, driver):
+    cells = case["sort"]["cells"]
+    py = [to_py(c) for c in cells]
+    n = len(py)
+    fails, tags = [], ["sort:len:%d" % min(n, 9)]
+    miss = sum(1 for v in py if is_missing(v))
+    if miss:
+        tags.append("sort:with-missing")
+    # --- the real code
+    try:
+        real = {"ok": [sort_exact(v) for v in sorted(py)]}
+    except TypeError:
+        real = {"err": "TypeError"}
+    try:
+        real_by = {"ok": sorted(range(n), key=py.__getitem__)}
+    except TypeError:
+        real_by = {"err": "TypeError"}
+    tags.append("sort:ok" if "ok" in real else "sort:TypeError")
+    # does the plain pairwise reading say "two members cannot be compared"?
+    bad_pairs = []
+    for i in range(n):
+        for j in range(i + 1, n):
+            try:
+                n_lt(py[i], py[j])
+            except Undefined:
+                bad_pairs.append((i, j))
+    if bad_pairs and all(j - i > 1 for i, j in bad_pairs):
+        tags.append("sort:incomparable-never-neighbours")
+    if "ok" in real_by and any(n_eq(py[i], py[j]) and type(py[i]) is not type(py[j]) for i in range(n) for j in range(i + 1, n)):
+        tags.append("sort:int-float-tie")
+    # (B) at the level of the statement ("indexing reorders rows without adding, dropping or altering any"): Table.index on these cells
+    table_obs = None
+    if not any(v is None for v in py) and n > 0:
+        core = _core()
+        t = core.Table(columns=["a", "r"]).insert([[v, i] for i, v in enumerate(py)])
+        try:
+            t.index("a")
+            rows = [tuple(r) for r in t]
+            table_obs = {"ok": [r[1] for r in rows]}
+            tags.append("sort:index:ok")
+            if sorted(r[1] for r in rows) != list(range(n)) or any(not (type(rows[k][0]) is type(py[rows[k][1]]) and n_eq(rows[k][0], py[rows[k][1]])) for k in range(len(rows))):
+                fails.append(F("B", "Table(columns=['a','r']).insert(%r).index('a') shows the rows %r: not a rearrangement of the inserted rows" % ([[v, i] for i, v in enumerate(py)], rows), "index-sort:rows-altered"))
+            else:
+                for k in range(1, len(rows)):
+                    try:
+                        if n_lt(rows[k][0], rows[k - 1][0]):
+                            fails.append(F("B", "Table(columns=['a','r']).insert(%r).index('a') shows %r: row %d is smaller than the row before it" % ([[v, i] for i, v in enumerate(py)], rows, k), "index-sort:not-sorted"))
+                            break
+                    except Undefined:
+                        pass
+        except TypeError:
+            table_obs = {"err": "TypeError"}
+            tags.append("sort:index:TypeError")
+            if not bad_pairs:
+                fails.append(F("B", "Table(columns=['a','r']).insert(%r).index('a') raises TypeError although every two cells can be compared" % ([[v, i] for i, v in enumerate(py)],), "index-sort:raised:TypeError"))
+        except Exception as e:
+            table_obs = {"err": errname(e)}
+            fails.append(F("B", "Table(columns=['a','r']).insert(%r).index('a') raises %r" % ([[v, i] for i, v in enumerate(py)], e), "index-sort:raised:" + errname(e)))
+    impl = {"sorted": real, "sorted_by": real_by, "index": table_obs}
+    model = None
+    if driver is not None:
+        model = driver.ask({"sort": cells})
+        for name, r, sig in (("sortE", real, "A:sorted:comparison-sort"), ("spec", real, "A:sorted:pySorted"),
+                             ("sortByE", real_by, "A:sorted-by:comparison-sort"), ("specBy", real_by, "A:sorted-by:pySortedBy")):
+            if model[name] != r:
+                fails.append(F("A", "sorted on %r: the real code gives %s, the model's %s gives %s" % (py, json.dumps(r)[:200], name, json.dumps(model[name])[:200]), sig))
+        if model["sortE"] != model["spec"] or model["sortByE"] != model["specBy"]:
+            fails.append(F("C", "the comparison sort and the specification-level sorted differ on %r although sorted_comparison_sort_eq is proved" % (py,), "C:sorted_comparison_sort_eq"))
+        if table_obs is not None and table_obs != model["sortByE"]:
+            fails.append(F("A", "Table.index('a') on cells %r gives the row order %s, the comparison sort of the model %s" % (py, json.dumps(table_obs)[:200], json.dumps(model["sortByE"])[:200]), "A:index:comparison-sort"))
+        if ("err" in model["sortE"]) != bool(bad_pairs):
+            fails.append(F("C", "sorted_raises_iff: the comparison sort %s on %r, pairs that cannot be compared: %r" % ("raises" if "err" in model["sortE"] else "succeeds", py, bad_pairs), "C:sorted_raises_iff"))
+    return {"fails": fails, "nontrivial": n >= 2, "tags": tags, "impl": impl, "model": model}
+
+
+def sort_snippet(case):
+    return ("from coba.results.core import Table, Missing\n"
+            "cells = %s\n"
+            "try: print(sorted(cells), sorted(range(len(cells)), key=cells.__getitem__))\nexcept TypeError as e: print('TypeError', e)\n"
+            "try: print(list(Table(columns=['a','r']).insert([[v,i] for i,v in enumerate(cells)]).index('a')))\nexcept TypeError as e: print('TypeError', e)\n"
+            % ("[" + ", ".join("Missing" if c == ["m"] else repr(to_py(c)) for c in case["sort"]["cells"]) + "]"))
+
+
+def sort_corpus(maxlen=3):
+    """every list of <= maxlen cells over 1, 1.0, 2, 'a', 'b', None, Missing"""
+    import itertools
+    out = []
+    for n in range(maxlen + 1):
+        for combo in itertools.product(SORT_ALPHABET, repeat=n):
+            out.append({"sort": {"cells": [list(c) for c in combo]}})
+    # longer shapes: runs, Missing between the classes, ties, the shapes CPython's run detection / binary insertion / merging treat differently
+    I = lambda *v: [["i", x] for x in v]
+    M, A, B, H = ["m"], ["s", "a"], ["s", "b"], ["f", 1, 2]
+    for cells in ([*I(3, 2, 1, 0), M, *I(4, 4)], [*I(0, 1, 2, 3), A], [A, *I(0, 1, 2, 3)], [*I(0, 1), M, M, M, A], [M, M, M], [M, *I(1), M, A, M],
+                  [*I(2, 1), ["f", 2, 1], ["f", 1, 1], *I(2, 1)], [B, A, ["s", ""], ["s", "ab"], B, A], [*I(5, 4, 3, 2, 1, 0, 9, 8, 7), M, *I(6)], [M, *I(1), M, *I(0), M],
+                  [*I(1), M, *I(2), M, A], [*I(1, 2), M, ["n"]], [["n"], M], [M, ["n"]], [M, ["n"], M, ["n"]], [H, *I(0), H, *I(1), ["f", 0, 1]],
+                  [*I(*range(40))], [*I(*range(40, 0, -1))], [*I(*range(20)), M, *I(*range(20))], [*I(*range(35)), A], [A, M] + I(*range(35)), [*I(*range(33)), M, A]):
+        out.append({"sort": {"cells": [list(c) for c in cells]}})
+    return out
+
+
+def sort_generate(rng):
+    """4 % of the generated cases: 0-12 cells; one class with ties / one class with Missing anywhere / two classes, side by side or kept apart by Missing / None"""
+    nums = [["i", k] for k in range(5)] + [["f", k, 2] for k in range(6)] + [["f", 1, 1], ["f", 2, 1]]
+    strs = [["s", x] for x in ("a", "b", "ab", "ba", "", "1")]
+    shape = rng.choice(["num", "num", "str", "num+m", "num+m", "str+m", "two", "two+m", "two+m", "none", "any"])
+    n = rng.choice([0, 1, 2, 2, 3, 3, 4, 5, 6, 8, 12])
+    if shape in ("num", "num+m"):
+        cells = [rng.choice(nums) for _ in range(n)]
+    elif shape in ("str", "str+m"):
+        cells = [rng.choice(strs) for _ in range(n)]
+    elif shape in ("two", "two+m"):
+        k = rng.choice(list(range(n + 1)))
+        cells = [rng.choice(nums) for _ in range(k)] + [rng.choice(strs) for _ in range(n - k)]
+        if rng.chance(0.3):
+            cells = cells[::-1]
+    elif shape == "none":
+        cells = [rng.choice(nums + [["n"]]) for _ in range(n)]
+    else:
+        cells = [rng.choice(nums + strs + [["n"], ["m"]]) for _ in range(n)]
+    if shape.endswith("+m"):
+        for _ in range(rng.choice([1, 1, 2, 3])):
+            cells.insert(rng.choice(list(range(len(cells) + 1))), ["m"])
+    return {"sort": {"cells": [list(c) for c in cells]}}
+
+
+
+# ---------------------------------------------------------------- round h: library callers of a Table leave it answering like a scan
+# case = {"lib": {"caller": name, "index": [columns], "data": 0|1|2}}: a Result is built, the CALLER OF THE LIBRARY re-indexes result.interactions
+# by its own column order, hands the Result to one public library function that only reads it, and afterwards every indexed query / groupby
+# of the caller's table must still be what a scan of its rows gives ((B) only; deterministic corpus family).
+LIB_IDS = ["environment_id", "learner_id", "evaluator_id", "index"]
+LIB_INDEXES = [["learner_id", "environment_id", "evaluator_id", "index"], ["evaluator_id", "learner_id", "environment_id", "index"],
+               ["index", "environment_id", "learner_id", "evaluator_id"], ["environment_id", "learner_id", "evaluator_id", "index"],
+               ["learner_id", "index"], ["learner_id"], ["reward", "learner_id"], ["environment_id", "index", "learner_id"], []]
+
+
+def lib_result(variant):
+    from coba.results import Result
+    envs = [["environment_id", "env_type"], [0, "A"], [1, "B"], [2, "C"]]
+    lrns = [["learner_id", "family", "full_name"], [0, "x", "x0"], [1, "y", "y1"]] + ([[2, "x", "x2"]] if variant == 2 else [])
+    vals = [["evaluator_id", "eval_type"], [0, "z"]] + ([[1, "w"]] if variant >= 1 else [])
+    ints = [["environment_id", "learner_id", "evaluator_id", "index", "action", "reward"]]
+    L = (0, 1, 2) if variant == 2 else (0, 1)
+    V = (0, 1) if variant >= 1 else (0,)
+    N = (1, 2, 3) if variant == 2 else (1, 2)
+    ints += [[e, l, v, i, (e + l + i) % 2, float((e * l + i + v) % 3)] for e in (0, 1, 2) for l in L for v in V for i in N]
+    return Result(envs, lrns, vals, ints)
+
+
+def _touch(r):
+    t = getattr(r, "interactions", None)
+    if t is not None:
+        list(t); list(t.where(learner_id=0)); list(t.groupby(0, "count")) if t.indexes else None
+    return r
+
+
+LIB_CALLERS = {
+    "Environments.from_result": lambda r: [e.params for e in __import__("coba.environments", fromlist=["Environments"]).Environments.from_result(r)],
+    "Result.copy": lambda r: _touch(r.copy()),
+    "Result.copy+where": lambda r: list(r.copy().interactions.where(learner_id={"<=": 0}, reward={">": 0.5})),
+    "Result.filter_fin": lambda r: _touch(r.filter_fin()),
+    "Result.filter_fin(2)": lambda r: _touch(r.filter_fin(2)),
+    "Result.filter_fin(1,l,p)": lambda r: _touch(r.filter_fin(1, "learner_id", "environment_id")),
+    "Result.filter_env": lambda r: _touch(r.filter_env(environment_id=[0, 2])),
+    "Result.filter_lrn": lambda r: _touch(r.filter_lrn(learner_id=1)),
+    "Result.filter_val": lambda r: _touch(r.filter_val(evaluator_id=0)),
+    "Result.filter_int": lambda r: _touch(r.filter_int(index={"<=": 1})),
+    "Result.filter_best": lambda r: _touch(r.filter_best("family", "environment_id")),
+    "Result.where": lambda r: _touch(r.where(learner_id=0, env_type=["A", "B"])),
+    "Result.where(index)": lambda r: _touch(r.where(index=2)),
+    "Result.where_fin": lambda r: _touch(r.where_fin(1)),
+    "Result.where_best": lambda r: _touch(r.where_best("family", "environment_id")),
+    "Result.raw_learners": lambda r: list(r.raw_learners()),
+    "Result.raw_learners(x)": lambda r: list(r.raw_learners(x="environment_id", l="family")),
+    "Result.raw_contrast": lambda r: list(r.raw_contrast(0, 1)),
+    "Result.learners/environments/evaluators": lambda r: (list(r.learners), list(r.environments.where(env_type="A")), list(r.evaluators), r.interactions.to_dicts()),
+}
+
+
+def lib_scan_check(table, caller, say):
+    """every indexed query / groupby of `table` against a full scan of list(table); returns the list of F"""
+    fails = []
+    cols, rows, idx = list(table.columns), [tuple(r) for r in table], list(table.indexes)
+    pos = {c: k for k, c in enumerate(cols)}
+    keys = [tuple(r[pos[c]] for c in idx) for r in rows]
+    if keys != sorted(keys):
+        fails.append(F("B", "%s: the table claims the index %r but its rows are not in that order: %r" % (say, idx, rows[:12]), "library-caller:%s:rows-out-of-claimed-index-order" % caller))
+    import operator
+    OPS = [("=", operator.eq), ("!=", operator.ne), ("<", operator.lt), ("<=", operator.le), (">", operator.gt), (">=", operator.ge)]
+    done = False
+    for c in idx:
+        vals = sorted(set(r[pos[c]] for r in rows))
+        for v in vals + ([vals[0] - 1, vals[-1] + 1] if vals else [0]):
+            for op, f in OPS + [("in", None), ("!in", None)]:
+                arg = [v, v + 7] if f is None else v
+                got = [tuple(r) for r in table.where(**{c: {op: arg}})]
+                exp = [r for r in rows if (f(r[pos[c]], v) if f else ((r[pos[c]] in arg) == (op == "in")))]
+                if got != exp and not done:
+                    done = True
+                    fails.append(F("B", "%s: where(%s={%r: %r}) on the table indexed by %r returns %r; a scan of its rows gives %r" % (say, c, op, arg, idx, got[:8], exp[:8]),
+                                   "library-caller:%s:where-differs-from-scan" % caller))
+    for level in range(0, len(idx)):
+        exp = {}
+        for k in keys:
+            exp[k[:level]] = exp.get(k[:level], 0) + 1
+        got = [(tuple(k) if isinstance(k, (tuple, list)) else (k,), n) for k, n in table.groupby(level, "count")]
+        if got != sorted(exp.items()):
+            fails.append(F("B", "%s: groupby(%d,'count') on the table indexed by %r gives %r; its rows say %r" % (say, level, idx, got[:8], sorted(exp.items())[:8]),
+                           "library-caller:%s:groupby-differs-from-partition" % caller))
+            break
+    return fails
+
+
+def lib_eval(case):
+    c = case["lib"]
+    caller, index = c["caller"], c["index"]
+    result = lib_result(c["data"])
+    table = result.interactions.index(*index) if index else result.interactions
+    claimed = list(table.indexes)
+    before = sorted(tuple(r) for r in table)
+    say0 = "lib_result(%d).interactions.index(%s)" % (c["data"], ", ".join(map(repr, index)))
+    tags = ["lib:caller:" + caller, "lib:index:" + ("default" if index == LIB_IDS else "none" if not index else "%d-level:%s" % (len(index), index[0]))]
+    fails = lib_scan_check(table, "none-yet", say0 + " before any library call")
+    if fails:
+        return {"fails": fails, "nontrivial": True, "tags": tags, "impl": None, "model": None}
+    try:
+        import contextlib, io
+        with contextlib.redirect_stdout(io.StringIO()):     # the filters report what they dropped through print
+            LIB_CALLERS[caller](result)
+        tags.append("lib:returned")
+    except Exception as e:
+        tags.append("lib:raised:" + errname(e))
+    say = "%s, then %s(result)" % (say0, caller)
+    if sorted(tuple(r) for r in table) != before:
+        fails.append(F("B", "%s: the caller's table no longer holds the rows it held (rows added, dropped or altered)" % say, "library-caller:%s:rows-changed" % caller))
+    fails += lib_scan_check(table, caller, say)
+    tags.append("lib:index-kept" if list(table.indexes) == claimed else "lib:index-changed-by-library")
+    return {"fails": fails, "nontrivial": bool(index), "tags": tags, "impl": {"indexes": list(table.indexes), "rows": len(before)}, "model": None}
+
+
+def lib_snippet(case):
+    c = case["lib"]
+    return ("# harness/props/c17.py: lib_result / LIB_CALLERS / lib_scan_check\nimport sys; sys.path.insert(0, 'harness')\nfrom props import c17\n"
+            "print(c17.lib_eval(%r)['fails'])\n" % (case,))
+
+
+def lib_corpus():
+    out = []
+    for caller in LIB_CALLERS:
+        for k, index in enumerate(LIB_INDEXES):
+            out.append({"lib": {"caller": caller, "index": index, "data": (k + len(caller)) % 3}})
+    return out
+
+
 class C17(Property):
     id = "C17"
     prop_modules = ["CobaVerif.Props.C17"]
@@ -2032,10 +2361,21 @@ class C17(Property):
             "groupby and copy likewise leave their table as it was; round g: a deterministic corpus family of 650 cases with cells of the library's own value types "
             "(HashableDense built from map()/generator/list/tuple, HashableSparse with explicit zeros, Categorical), probes in set / frozenset / list / tuple / dict keys, bare / in / !in / =, "
             "unindexed and indexed column - checked (B) only against any(cell == v) row by row (the Lean Cell has no such values); "
-            "Phase 4: every case is also run through the machine with per-object _lohis caches (stepC) and the code must agree with it")
+            "Phase 4: every case is also run through the machine with per-object _lohis caches (stepC) and the code must agree with it; "
+            "Phase 5: `sort` cases (4 % of the generated cases + every list of <= 3 cells over 1, 1.0, 2, 'a', 'b', None, Missing + 22 longer shapes): the cells are sorted by sorted(), by sorted(range, key=) and by "
+            "Table.index on a value + row-id table, and by the driver's comparison sort with the raising `<` (pySortedE / pySortedByE) and the specification-level pySorted / pySortedBy; all must agree, "
+            "Table.index must rearrange the rows without altering any, in non-decreasing order, and may raise TypeError only when two cells cannot be compared; non-trivial = at least 2 cells" + "; "
+            "round h: deterministic corpus family `lib` (19 public library functions that receive a Result x 9 index column orders put on result.interactions by the user beforehand, 171 cases, (B) only): "
+            "Environments.from_result, Result.copy / filter_* / where* / raw_learners / raw_contrast / table accessors; after the call (returned or raised) the user's table must hold the same rows, in the order of the index it claims, "
+            "and every where (= != < <= > >= in !in on every index column, values present / below / above) and groupby level must equal a scan of its rows; signature library-caller:<function>:<what>; "
+            "Phase 5 goal 2: at the end of every non-stale case len(t), t.to_dicts() and every column object t[c] (len, list, [0]) of each live table / view nobody mutated under are compared with Table.len / toDicts / colObs of the model "
+            "(view_observables) and, (B), with list(t) of the same object")
     trusted_base = [
-        "Python's sorted() is modelled as 'TypeError iff two non-Missing members are incomparable, else the stable arrangement' (checked exhaustively "
-        "against CPython for lists up to 5 over the value kinds); bisect_left/right as the textbook loop (same probes as CPython's C code)",
+        "Python's sorted(): the model's reading 'TypeError iff two non-Missing members are incomparable, else the stable arrangement' (pySorted / pySortedBy) is since Phase 5 a THEOREM about a "
+        "comparison sort that only asks the raising `<` (stable insertion sort sortE with pyLt: sorted_comparison_sort_eq, sortedBy_comparison_sort_eq, sorted_raises_iff, for every list, Missing included); "
+        "what stays trusted is that CPython's timsort, which makes OTHER comparisons than an insertion sort, agrees with it - compared on every `sort` case "
+        "(all lists <= 3 over 1, 1.0, 2, 'a', 'b', None, Missing; hand-made run / gallop shapes up to 41 cells; ~320 generated lists per quick run) for sorted(cells), "
+        "sorted(range(n), key=cells.__getitem__) and Table.index; bisect_left/right as the textbook loop (same probes as CPython's C code)",
         "re.search is modelled for metacharacter-free patterns only (substring test; digit-boundary test for numeric patterns)",
         "float cells are dyadic rationals with few digits, so repr(float) is their exact decimal expansion",
         "table objects sharing storage (copy()/where()): the model gives every object of a run the mutated dict (`share`); each alias is looked at once, "
@@ -2097,7 +2437,7 @@ class C17(Property):
         "multi_inv_reachable": "needs cfg.resortInsert and OKC (opOK for every operation on a FRESH object when its turn comes); says nothing of an object after ANOTHER object has "
                                "mutated the shared lists (fresh = false: findings C17-F19/F20, stale_cache_counterexample); freshness is never regained in the ghost flag (a later index() through the stale object is not credited)",
         "where_every_live_object": "as multi_inv_reachable plus whereOK for the query; about the cached lohis (effLohis / pwhereWith)",
-        "pyLt_class_order": "per comparable class (numbers, strings); sorted() itself is still the trusted 'TypeError iff two non-Missing members are incomparable, else stable arrangement' - the comparison it uses is now characterised (pyLt_raises_iff), the sort algorithm is not modelled",
+        "pyLt_class_order": "per comparable class (numbers, strings); since Phase 5 sorted() is a comparison sort in the model (sortE with pyLt) proved equal to pySorted for every list (sorted_comparison_sort_eq)",
         "copy_independent": "only for where/groupby/copy/listing; insert/index through one object change the others (recorded findings C17-F19/F20)",
     }
 
@@ -2125,6 +2465,8 @@ class C17(Property):
         return notes
 
     def generate(self, rng, tier):
+        if rng.chance(0.04):
+            return sort_generate(rng)
         g = Gen(rng)
         if rng.chance(0.16):
             # histories that go on using an alias (copy / view) after another object has mutated the shared lists
@@ -2258,6 +2600,8 @@ class C17(Property):
             c["stale"] = True
         cs.extend(st)
         cs.extend(vt_corpus())
+        cs.extend(sort_corpus(3))
+        cs.extend(lib_corpus())
         return cs
 
     def exhaustive(self, tier):
@@ -2316,6 +2660,10 @@ class C17(Property):
     def evaluate(self, case, driver):
         if "vt" in case:
             return vt_eval(case)
+        if "sort" in case:
+            return sort_eval(case, driver)
+        if "lib" in case:
+            return lib_eval(case)
         run = Runner(case).run()
         fails, tags = list(run.fails), run.tags
         model = None
@@ -2337,6 +2685,18 @@ class C17(Property):
                     break
             if len(model) != len(run.obs):
                 fails.append(F("A", "model answered %d observations for %d" % (len(model), len(run.obs)), "A:length"))
+            # Phase 5: len / to_dicts / column access of every live object nobody mutated under, against Table.len / toDicts / colObs (view_observables)
+            mviews = ans.get("views") or []
+            for j, v in sorted(run.views.items()):
+                mv = mviews[j] if j < len(mviews) else None
+                # the class of table[c] (list / SliceView / ListView) and the negative index [-1] (a SliceView answers seq[start-1]) are
+                # internals: evaluated by the model and tagged, but a rewrite that changes them is harmless for the property
+                strip = lambda w: w if w is None else dict(w, cols=[[c, ({"ok": {q: x for q, x in o["ok"].items() if q not in ("kind", "last")}} if "ok" in o else o)] for c, o in w["cols"]])
+                mv, v = strip(mv), strip(v)
+                if mv != v:
+                    part = next((key for key in ("len", "dicts") if mv is None or mv.get(key) != v[key]), "column")
+                    fails.append(F("A", "live table %d at the end of the case: implementation shows %s, the model %s" % (j, json.dumps(v)[:500], json.dumps(mv)[:500]), "A:view:" + part))
+                    break
             # Phase 4: the machine with per-object _lohis caches (stepC) on the same operations: the real code must agree with it
             # as well (A), and where OKC holds every fresh live object must pass invB and cohB at the end (multi_inv_reachable at run time)
             cached = ans.get("cached")
@@ -2436,6 +2796,13 @@ class C17(Property):
                 if len(v["probes"]) > 1:
                     yield {"vt": dict(v, probes=v["probes"][:k] + v["probes"][k + 1:])}
             return
+        if "lib" in case:
+            return
+        if "sort" in case:
+            cells = case["sort"]["cells"]
+            for k in range(len(cells)):
+                yield {"sort": {"cells": cells[:k] + cells[k + 1:]}}
+            return
         for c in self._shrink_ops(case):
             if case.get("stale"):
                 c["stale"] = True
@@ -2522,6 +2889,10 @@ class C17(Property):
     def snippet(self, case):
         if "vt" in case:
             return vt_snippet(case)
+        if "sort" in case:
+            return sort_snippet(case)
+        if "lib" in case:
+            return lib_snippet(case)
         return plain_snippet(case)
 
 
